@@ -175,11 +175,17 @@ def run(ctx):
                                 'harness/c16/text.go xnode.value(): documented xml object mapping (25 lines)',
                                 'checks/c16.py cbor_features(): names findings only, never judges']
     binp = ctx.go_build('c16')
+    # development aid (mutation testing): C16_ONLY=msgpack,text restricts the formats of this run; recorded in the evidence
+    only = [x for x in os.environ.get('C16_ONLY', '').split(',') if x]
+    formats = [f for f in BIN_FORMATS if not only or f in only]
+    do_text = not only or 'text' in only
+    if only:
+        ctx.cov['restricted_to'] = only
 
     # ---- 1. GEN: every encoding of every value of the universe, per format
     cases = []
     per_format = collections.OrderedDict()
-    for f in BIN_FORMATS:
+    for f in formats:
         cfg = ('SPECIFICATION Spec\nCONSTANTS Format = "%s"\n Part = "all"\n Wide = %s\nCONSTRAINT Emit\nCHECK_DEADLOCK FALSE\n' % (f, wide))
         g = ctx.tlc('WireGen', 'gen_%s.cfg' % f, cfg_text=cfg, timeout=1500, workers=4)
         ctx.tlc_expect_ok(g, 'WireGen ' + f)
@@ -189,7 +195,7 @@ def run(ctx):
         cases += g.printed
 
     # ---- 2. SIM: deeper values composed with the same constructors; composition checked against Enc (bounded, exhaustive)
-    for f in BIN_FORMATS:
+    for f in formats:
         cfg = ('SPECIFICATION Spec\nCONSTANTS Format = "%s"\n MaxDepth = %d\n Chunks = 0\n Bounded = TRUE\nINVARIANT StepInEnc\nCHECK_DEADLOCK FALSE\n'
                % (f, 1 if f in ('msgpack', 'cbor') else 2))
         m = ctx.tlc('WireSim', 'simmc_%s.cfg' % f, cfg_text=cfg, timeout=900, workers=4)
@@ -207,7 +213,7 @@ def run(ctx):
     ev_bin = os.path.join(ctx.build, 'events_bin.ndjson')
     r = ctx.run([binp, 'replay', cpath, ev_bin], check=True, timeout=3000)
     ev_txt = os.path.join(ctx.build, 'events_text.ndjson')
-    r2 = ctx.run([binp, 'text', str(1500 if thorough else 240), ev_txt], check=True, timeout=1500)
+    r2 = ctx.run([binp, 'text', str((1500 if thorough else 240) if do_text else 0), ev_txt], check=True, timeout=1500)
     events = vlib.read_ndjson(ev_bin)
     tevents = [e for e in vlib.read_ndjson(ev_txt)]
     skipped = [e for e in tevents if e.get('kind') == 'skip']
@@ -263,7 +269,7 @@ def run(ctx):
     ctx.cov['roundtrip_law_values_refused_by_fq_encoder'] = len(skipped)
     ctx.cov['comparison'] = 'TLC TraceWire.ReprEq for every format (floats as IEEE-754 bit patterns); no runner-side equality'
     ctx.cov['harness'] = (r.stdout.strip() + ' | ' + r2.stdout.strip())[:300]
-    for k in (0, len(cases) // 3, len(cases) - 1):
+    for k in ((0, len(cases) // 3, len(cases) - 1) if cases else ()):
         c = cases[k]
         ctx.sample(dict(format=c['f'], part=c['part'], value=c['val'], bytes_hex=unrle(c['bytes'])[:40].hex(), expected_repr=c.get('repr'),
                         observed=events[k]['got'], truncations_tried=len(c['cuts']), trails=len(c['trails'])))
@@ -272,6 +278,8 @@ def run(ctx):
         ctx.sample(dict(format=t['f'], document=t.get('src', '')[:120], value=t['val'], observed=t['got']))
 
     # ---- 5. binding demonstration: damage recorded observations, TLC must reject exactly those lines
+    if not events:
+        return
     good = [i for i, e in enumerate(events) if (i + 1) not in rej_by_line and e['kind'] == 'ok' and e['got'].get('t') == 'arr'
             and e['got']['a'] and e['truncs'] and e['trails']]
     if len(good) < 3:
@@ -286,7 +294,7 @@ def run(ctx):
     # ---- 6. the real command line on a sample: `fq -d F -c ... files` must agree with the in-process path
     rng = ctx.rng
     sample_idx = []
-    for f in BIN_FORMATS:
+    for f in formats:
         idx = [i for i, c in enumerate(cases) if c['f'] == f and c['kind'] == 'ok' and not has_nonfinite(c['repr'])
                and len(c['bytes']) < 400 and all(x >= 0 for x in c['bytes'])]
         rng.shuffle(idx)
